@@ -30,8 +30,21 @@ def pkg_of_demo(f):
     txt = open(os.path.join(src, f)).read()
     m = re.search(r"^package (\w+)", txt, re.M)
     pk = m.group(1) if m else ""
-    for d in dirs:
-        if os.path.basename(d) == pk.replace("_test", ""): return d
+    want = pk.replace("_test", "")
+    cands = list(dirs)
+    for d in dirs:  # parents of touched dirs
+        while "/" in d:
+            d = os.path.dirname(d); cands.append(d)
+    readme = os.path.join(src, "README.md")
+    if os.path.exists(readme):  # paths mentioned next to the demo file name
+        for m in re.finditer(r"([A-Za-z0-9_./-]+)/" + re.escape(f), open(readme).read()):
+            cands.insert(0, m.group(1).lstrip("./"))
+    for d in cands:
+        if os.path.basename(d) == want and os.path.isdir(os.path.join(wt, d)): return d
+    # last resort: any directory in the tree with that package name next to the touched ones
+    for root, dn, fn in os.walk(wt):
+        if os.path.basename(root) == want and any(x.endswith(".go") for x in fn):
+            return os.path.relpath(root, wt)
     return dirs[0]
 demo_dirs = {}
 for f in demos:
